@@ -203,9 +203,12 @@ def run(chk):
             continue
         cases.append((src, ["program", "-", ["LIST"], ["LIST"] + [x for _, x in cls], ["LIST"] + [x for _, x in items], ["LIST"]]))
     corpus = []
+    block_counts = {}     # corpus source -> number of statements the grammar puts into main's block
     for fn, o in load_corpus("C14"):
         if "source" in o:
             corpus.append((o["source"], None, o.get("known")))
+            if "main_block_statements" in o:
+                block_counts[o["source"]] = o["main_block_statements"]
     # multi-declarator declarations with annotations and modifiers: every declarator carries the declaration's type, annotations,
     # tracked and final flags (compared with the parser model's tree)
     for anns in ("", "@tracked ", "@tracked @tracked ", "final ", "@tracked final ", "final @tracked ", "final @tracked @tracked "):
@@ -257,6 +260,13 @@ def run(chk):
             dis = (src, a, b)
         if known and not a.startswith("ok "):
             chk.violation("known: " + src, {"match_key": known, "source": src})
+        if src in block_counts and a.startswith("ok "):
+            tree = T.parse_sexpr(a[3:])
+            fns = [f for f in tree[4][1:] if f[1] == "main"]
+            n = len(fns[0][4][1]) - 1 if fns else -1
+            if n != block_counts[src]:
+                chk.violation("main's block holds %d statements where the grammar puts %d (a declarator escaped its statement): %s"
+                              % (n, block_counts[src], src), {"match_key": known, "source": src})
     chk.extra["correspondence"] = {"programs": len(cases), "exhaustive_expressions": n_exh, "excluded_false_typeahead": excluded,
                                    "first_disagreement": ("%r impl=%s model=%s" % (dis[0][:120], dis[1][:160], dis[2][:160])) if dis else ""}
     chk.sample({"source": cases[n_exh // 2][0]})
